@@ -28,6 +28,20 @@ pub fn indep_decode(c: &TileCompression, b: &[u8]) -> Option<Vec<u8>> {
 
 struct V { kind: String, input: String, detail: String }
 
+fn crc32_bytes(data: &[u8]) -> u32 { let mut c = 0xffff_ffffu32; for b in data { c ^= *b as u32; for _ in 0..8 { c = if c & 1 != 0 { (c >> 1) ^ 0xedb8_8320 } else { c >> 1 }; } } !c }
+/// two 3000-byte payloads that differ in their first 8 bytes only and have the same CRC32 (a birthday search over the 8-byte
+/// prefixes: equal CRC state behind the prefix means equal CRC of the whole)
+fn crc_colliding_pair(rng: &mut Rng) -> (Vec<u8>, Vec<u8>) {
+	let suffix = rng.bytes(2992);
+	let mut seen: HashMap<u32, [u8; 8]> = HashMap::new();
+	loop {
+		let p: [u8; 8] = rng.next().to_le_bytes();
+		let c = crc32_bytes(&p);
+		if let Some(q) = seen.get(&c) { if *q != p { let mut a = q.to_vec(); a.extend(&suffix); let mut b = p.to_vec(); b.extend(&suffix); debug_assert_eq!(crc32_bytes(&a), crc32_bytes(&b)); return (a, b); } }
+		seen.insert(c, p);
+	}
+}
+
 pub fn run(ctx: &Ctx) -> Result<()> {
 	let rt = tokio::runtime::Builder::new_multi_thread().worker_threads(4).enable_all().build()?;
 	let mut out = Out::create(&ctx.out, "cases.txt")?;
@@ -87,7 +101,10 @@ pub fn run(ctx: &Ctx) -> Result<()> {
 	let nsets = if ctx.thorough { 12 } else { 2 };
 	let containers: &[&str] = if ctx.thorough { &["versatiles", "pmtiles", "tar", "dir", "mbtiles"] } else { &["versatiles", "pmtiles", "tar"] };
 	for i in 0..nsets {
-		let tiles: TileMap = gen_tiles(&mut rng, false);
+		let mut tiles: TileMap = gen_tiles(&mut rng, false);
+		// two different payloads of equal length with equal CRC32 (and, being incompressible, equal compressed length):
+		// content fingerprints weaker than the content must not merge them
+		{ let (a, b) = crc_colliding_pair(&mut rng); let z = 6u8; let (x, y) = (rng.below(60) as u32, rng.below(60) as u32); tiles.insert((z, x, y), a); tiles.insert((z, x + 1, y), b); }
 		let mut tj = TileJSON::default(); let _ = tj.set_string("name", "c04 metadata ✓");
 		for s in &COMPS { for d in [None, Some(TileCompression::Uncompressed), Some(TileCompression::Gzip), Some(TileCompression::Brotli)] { for force in [false, true] { for c in containers {
 			if !ctx.thorough && rng.below(3) != 0 { continue; }
